@@ -3,7 +3,9 @@
    JsonRpcException.__init__ - row 7 -, error branch of structure_message pops _result_types - row 5).
    Reference: Spec/OutgoingSpec.v (`spec`: every future is decided by the first event after its
    send that concerns it).  Hypotheses carried by the statement:
-     injective_supply     no outgoing id is used twice (uuid4 / distinct caller-given msg_id);
+     injective_supply     every request is sent with an id distinct from every other OUTSTANDING one
+                          (uuid4 / caller-given msg_id; an id is free again once its request has been
+                          answered or given up - a callback-driven poll may reuse a fixed msg_id);
      disjoint_directions  the peer's own request ids / cancelled ids are none of ours  (finding F21:
                           the two tables are shared between the directions, C05_refuted_shared_tables);
      valid_results        a result validates against the requested method's result type (row 26:
@@ -82,7 +84,7 @@ Print Assumptions C05.
    result type registered for OUR request 7); the peer's reply to our 7 then hits KeyError in
    structure_message: the future stays pending for ever. *)
 Definition shared_tables_witness : list ev :=
-  [UserSend 0 1 true (Some (IInt 7)); InReply (IInt 7); RecvResult (IInt 7) 0 [1%N]].
+  [UserSend 0 1 (CbUser KNone) (Some (IInt 7)); InReply (IInt 7); RecvResult (IInt 7) 0 [1%N]].
 
 Theorem C05_refuted_shared_tables :
   injective_supply shared_tables_witness /\ valid_results shared_tables_witness /\
@@ -90,16 +92,13 @@ Theorem C05_refuted_shared_tables :
   views (run shared_tables_witness) = [(Pending, 0%N)] /\
   spec shared_tables_witness = [(Resolved 1 0, 1%N)].
 Proof.
-  repeat split; try (vm_compute; reflexivity).
-  - unfold injective_supply. vm_compute. repeat constructor. intros [].
-  - intros i p oks [H|[H|[H|[]]]]; try discriminate. injection H as <- <- <-.
-    intros rt [H|[]]. injection H as <-. reflexivity.
+  repeat split; vm_compute; reflexivity.
 Qed.
 
 (* F29: an error response whose code is not an int32 (e.g. 2^31) is rejected by lsprotocol's
    integer_validator while structuring; the frame is only reported, the future stays pending and
    its _request_futures entry stays. *)
-Definition code_range_witness : list ev := [UserSend 0 1 true None; RecvError (IUuid 0) 2147483648 [109%N] 0].
+Definition code_range_witness : list ev := [UserSend 0 1 (CbUser KNone) None; RecvError (IUuid 0) 2147483648 [109%N] 0].
 
 Theorem C05_refuted_code_range :
   injective_supply code_range_witness /\ disjoint_directions code_range_witness /\
@@ -109,9 +108,7 @@ Theorem C05_refuted_code_range :
   akeys (futs (run code_range_witness)) = [IUuid 0].
 Proof.
   repeat split; try (vm_compute; reflexivity).
-  - unfold injective_supply. vm_compute. repeat constructor. intros [].
-  - intros i [].
-  - intros i p oks [H|[H|[]]]; discriminate.
+  intros i [].
 Qed.
 
 Theorem C05_refuted : ~ C05_statement.
@@ -124,11 +121,11 @@ Print Assumptions C05_refuted.
 (* the same table sharing, other entry points: an incoming $/cancelRequest naming our id cancels
    our future; an incoming async request with our id replaces our future in the table *)
 Example C05_shared_tables_cancel :
-  views (run [UserSend 0 1 true (Some (IInt 7)); InCancel (IInt 7); RecvResult (IInt 7) 0 [1%N]])
+  views (run [UserSend 0 1 (CbUser KNone) (Some (IInt 7)); InCancel (IInt 7); RecvResult (IInt 7) 0 [1%N]])
   = [(Cancelled, 0%N)].
 Proof. vm_compute. reflexivity. Qed.
 Example C05_shared_tables_async :
-  views (run [UserSend 0 1 true (Some (IInt 7)); InAsyncReg (IInt 7); RecvResult (IInt 7) 0 [1%N]])
+  views (run [UserSend 0 1 (CbUser KNone) (Some (IInt 7)); InAsyncReg (IInt 7); RecvResult (IInt 7) 0 [1%N]])
   = [(Pending, 0%N)].
 Proof. vm_compute. reflexivity. Qed.
 
@@ -136,7 +133,7 @@ Proof. vm_compute. reflexivity. Qed.
    reported; its future stays pending and later (valid) results for it are rejected (KeyError).
    Outside the property's quantifier ("results decoded as the result type"), recorded here. *)
 Example C05_outside_invalid_result :
-  let evs := [UserSend 0 1 true None; RecvResult (IUuid 0) 3 [0%N]; RecvResult (IUuid 0) 0 [1%N]] in
+  let evs := [UserSend 0 1 (CbUser KNone) None; RecvResult (IUuid 0) 3 [0%N]; RecvResult (IUuid 0) 0 [1%N]] in
   valid_results_b evs = false /\ views (run evs) = [(Pending, 0%N)] /\
   akeys (futs (run evs)) = [IUuid 0] /\ errs (run evs) = 2%N.
 Proof. vm_compute. repeat split. Qed.
@@ -145,7 +142,7 @@ Proof. vm_compute. repeat split. Qed.
    of order, a duplicate, a stray, an error with code 0 and empty message, meets the hypotheses;
    every future is decided as the first reply to it says. *)
 Definition sample : list ev :=
-  [UserSend 0 1 true None; UserSend 1 2 false (Some (IInt 7)); UserSend 6 0 true (Some (IStr [55%N]));
+  [UserSend 0 1 (CbUser KNone) None; UserSend 1 2 CbNone (Some (IInt 7)); UserSend 6 0 (CbUser KNone) (Some (IStr [55%N]));
    RecvResult (IInt 7) 0 [0%N; 1%N; 2%N]; RecvError (IStr [55%N]) 0 [] 3;
    RecvResult (IUuid 0) 5 [0%N; 1%N]; RecvResult (IUuid 0) 0 [0%N; 1%N]; RecvError (IInt 99) 1 [109%N] 0].
 
@@ -160,13 +157,14 @@ Proof. vm_compute. repeat split. Qed.
 Theorem C05_permutation : forall sends rs rs',
   forallb is_send sends = true -> forallb is_resp rs = true -> NoDup (map resp_id rs) ->
   Permutation.Permutation rs rs' ->
-  injective_supply (sends ++ rs) -> valid_results (sends ++ rs) -> lsp_codes (sends ++ rs) ->
+  injective_supply (sends ++ rs) -> lsp_codes (sends ++ rs) ->
+  valid_results (sends ++ rs) -> valid_results (sends ++ rs') ->
   views (run (sends ++ rs)) = views (run (sends ++ rs')).
 Proof. exact reply_order_irrelevant. Qed.
 Print Assumptions C05_permutation.
 
 Example C05_permutation_nonvacuous :
-  let sends := [UserSend 0 1 true None; UserSend 1 2 false None; UserSend 6 0 true (Some (IInt 7))] in
+  let sends := [UserSend 0 1 (CbUser KNone) None; UserSend 1 2 CbNone None; UserSend 6 0 (CbUser KNone) (Some (IInt 7))] in
   let rs := [RecvResult (IUuid 0) 5 [1%N]; RecvError (IUuid 1) 0 [] 0; RecvResult (IInt 7) 3 [0%N]] in
   let rs' := [RecvResult (IInt 7) 3 [0%N]; RecvResult (IUuid 0) 5 [1%N]; RecvError (IUuid 1) 0 [] 0] in
   guard (sends ++ rs) = true /\ Permutation.Permutation rs rs' /\
@@ -177,3 +175,20 @@ Proof.
   apply (Permutation.Permutation_cons_app [RecvResult (IUuid 0) 5 [1%N]; RecvError (IUuid 1) 0 [] 0] []).
   cbn [app]. apply Permutation.Permutation_refl.
 Qed.
+
+(* Re-entrancy.  Callbacks are user code and run INSIDE set_result / set_exception / cancel; they
+   may cancel other futures and send follow-up requests, also with the id that has just been
+   answered (a poll with a fixed msg_id).  `rrun` is the machine that executes that user code
+   where the callbacks run (Model: step_with, after the `_request_futures.pop`); `rtrace evs` is
+   the primitive trace it induces (the event, then what the user code did).  Since nothing follows
+   the callbacks in the handling of a frame, the two coincide - so every clause of C05 above
+   holds of `rrun evs` as it holds of `run (rtrace evs)`: the re-sent id is a NEW request whose
+   outstanding interval starts inside the callback, and every generation of a polled id completes
+   with ITS reply. *)
+Theorem C05_reentrant : forall evs,
+  rrun evs = run (rtrace evs) /\
+  (guard (rtrace evs) = true -> views (rrun evs) = spec (rtrace evs)).
+Proof.
+  intros evs. split; [apply (rrun_flat evs init)|apply reentrant_first_response_wins].
+Qed.
+Print Assumptions C05_reentrant.
